@@ -60,6 +60,11 @@ func (t *tracer) run(ctx context.Context) {
 	var termination sync.Once
 	defer close(t.done)
 
+	// cancelled is set to nil once the context is done: a done context is
+	// always ready and would otherwise turn this loop into a busy spin for as
+	// long as senders are still registered.
+	cancelled := ctx.Done()
+
 	for {
 		select {
 		case sch := <-t.subscription:
@@ -89,7 +94,8 @@ func (t *tracer) run(ctx context.Context) {
 				subscriber <- trace
 				verifhook.Point("tracer.bcast")
 			}
-		case <-ctx.Done():
+		case <-cancelled:
+			cancelled = nil
 			// Start a termination waiting routine (only once)
 			termination.Do(func() {
 				go func() {
@@ -117,8 +123,12 @@ func (t *tracer) SubscribeChannel(channel chan ITrace) chan ITrace {
 	okCh := make(chan struct{}, 1)
 	sub := subscription{channel: channel, ok: okCh}
 	verifhook.Point("tracer.sub")
-	t.subscription <- sub
-	<-okCh
+	select {
+	case t.subscription <- sub:
+		<-okCh
+	case <-t.done:
+		// the tracer has terminated: nothing will ever be delivered
+	}
 	return channel
 }
 
@@ -144,7 +154,13 @@ loop:
 
 func (t *tracer) Send(trace ITrace) {
 	verifhook.Point("tracer.send")
-	t.traces <- trace
+	select {
+	case t.traces <- trace:
+	case <-t.done:
+		// the tracer has terminated (its context is done and every registered
+		// sender has finished): drop the trace instead of blocking the caller
+		// forever
+	}
 }
 
 func (t *tracer) RegisterSender() ISenderHandle {
